@@ -209,10 +209,51 @@ def judge(V, cases, relevant, stats, family='', keep_traces=None, isolation=None
     return traces
 
 
+def absent_pair(pipe, clean_pipe, items, failing):
+    """C13, 'as if the item were absent': the multiplexed pipeline whose user function fails on
+    some items (errors dropped right behind it) against the same pipeline with a function that
+    does not fail, on the items without the failing ones.  -> a PlainTrace 'pair' trace"""
+    src = [{'t': 'c', 'k': [0]}] + [{'t': 'n', 'k': [0], 'v': v} for v in items] + [{'t': 'd', 'k': [0]}]
+    a = M.run_mux(pipe, src, taps='ends')
+    kept = [v for v in items if not failing(v)]
+    src2 = [{'t': 'c', 'k': [0]}] + [{'t': 'n', 'k': [0], 'v': v} for v in kept] + [{'t': 'd', 'k': [0]}]
+    b = M.run_mux(clean_pipe, src2, taps='ends')
+    out = lambda t, p: [e['v'] for e in log_of(t, [len(p)]) if e['t'] == 'n']
+    return {'pipe': pipe, 'modeled': False, 'oracle': 'pair',
+            'groups': [{'items': items, 'mux': out(a, pipe), 'muxerr': 0, 'plain': out(b, clean_pipe),
+                        'plainend': 'completed' if b['end']['t'] == 'completed' and a['end']['t'] == 'completed' else 'error',
+                        'plainerr': 0}]}
+
+
+def replay_plain(prop, path, w):
+    pipe = json.loads(w['pipe'])
+    if w['mode'] == 'absent':
+        code = w['fail_code']
+        tr = absent_pair(pipe, json.loads(w['clean_pipe']), w['src'], lambda v: v == ['i', code])
+    else:
+        r = M.run_plain(pipe, w['src'])
+        tr = {'pipe': pipe, 'modeled': True, 'oracle': 'plain-sem',
+              'groups': [{'items': w['src'], 'mux': [], 'muxerr': 0, 'plain': [o['v'] for o in r['out']],
+                          'plainend': r['end'], 'plainerr': 0 if r['end'] != 'error' else max(1, min(r['endstep'], len(w['src'])))}]}
+    v, _ = C.validate_traces('PlainTrace', [tr])
+    print('pipeline:', ' '.join(op_names(pipe)))
+    print('items   :', json.dumps(w['src']))
+    print('outputs :', json.dumps(tr['groups'][0]['mux'] or tr['groups'][0]['plain']))
+    if w['mode'] == 'absent':
+        print('without the failing items:', json.dumps(tr['groups'][0]['plain']))
+    print('verdict :', v[0])
+    if v[0][0] == 'REJECT':
+        print('VIOLATION property=%s replay=%s clause=%s' % (prop, path, v[0][2]))
+        return 1
+    return 0
+
+
 def replay(prop, path, relevant):
     """bin/check CNN --replay <file>: re-run the stored case on the real code, re-judge."""
     C.use_repo()
     w = json.load(open(path))['witness']
+    if w.get('mode') in ('plain', 'absent'):
+        return replay_plain(prop, path, w)
     case = {'pipe': json.loads(w['pipe']), 'mode': w['mode'], 'src': w['src'],
             'timescale': w.get('timescale')}
     if w.get('multi'):
